@@ -49,8 +49,8 @@ CHECKS.update({
              text="Bounded symbolic checking of the in-memory spatial queries in the planar metric: nodes with all coordinates symbolic, edges on a library of concrete layouts (unit, long, diagonal, zero-length, tiny, ~1e7 metres) with symbolic query point and radius; one known finding (start-node box pre-filter) is listed in known_findings.json.",
              note="Reals; rtree-indexed map, lat-lon metric and SqliteMap are outside this check's bounds (stated in evidence); absolute 1e-8 tolerances give a radius-proportional band."),
  'C20': dict(tech="symbolic execution of real interpolate_path (planar: real kernels; lat-lon: loop structure over symbolic stand-ins of the geodesic primitives), z3", ref="5/C20",
-             text="Bounded symbolic checking: for traces of 1-2(3) symbolic points and symbolic spacing, with 1..5 subdivisions per segment, first/last/originals kept in order, inserted points at k/dt on the connection, no gap above the spacing.",
-             note="Reals; more than 5 subdivisions per segment outside the bound; lat-lon primitives assumed correct here (C14)."),
+             text="Bounded symbolic checking: for traces of 1-3 (thorough: 4) symbolic points and symbolic spacing, with up to 4-8 (thorough: up to 24) subdivisions per leg, first/last/originals kept in order, inserted points at k/dt on the connection, no gap above the spacing.",
+             note="Reals; more subdivisions per leg than the per-instance bound (listed in the evidence) outside the bound; lat-lon primitives assumed correct here (C14)."),
 })
 CHECKS.update({
  'C05': dict(tech="symbolic execution of real match() on a real InMemMap with the real planar kernels (G-real, z3 nlsat): cut-off and nearest-point claims per best-path state; cut-offs also over abstract geometry", ref="5/C05",
